@@ -66,6 +66,38 @@ def parallel_binding_rules(fb, ctx):
             ctx.check(nxt == "push_group" or nxt == "push_ident:mut", "PARALLEL", f"{h['path'].split('::')[-1] if ' as ' not in h['path'] else 'Builder::to_tokens'}: `let` at +{ln - h['line']} binds a tuple pattern or a fixed variable", f"PARALLEL|{h['path']}|{sum(1 for y, _ in seq[:i] if y == 'push_ident:let')}", f"the generated `let` is followed by `{nxt}`: parameters are bound one after another, so an earlier parameter shadows the caller's variable of the same name inside a later parameter expression (`a = b, b = a` binds both to the same value)", f"{h['file']}:{ln}")
     ctx.floor("tuple-pattern parameter bindings in biscuit-quote", n_tuple, 5)
 
+def source_field_rules(fb, ctx):
+    """SOURCE: both paths parse a whole source with the same biscuit_parser entry point (parse_block_source / parse_source) and
+    get one SourceResult; every field of it that a run time `code_with_params` loads into the builder must also be read by the
+    biscuit-quote function calling the same entry point - a field the macro path never reads is content the macro drops."""
+    per = {}
+    for b in fb.bodies.values():
+        if b["crate"] not in ("biscuit_auth", "biscuit_quote"):
+            continue
+        h = fb.hir.get(b["key"])
+        if not h:
+            continue
+        entry = sorted(set(c.split("::")[-1] for c in hirq.calls(h["body"], r"parser::parse_(block_)?source$")))
+        if not entry:
+            continue
+        flds = {n["name"] for n in find_all(h["body"], lambda z: z.get("k") == "field" and "SourceResult" in (z.get("ety") or ""))}
+        for e in entry:
+            per.setdefault(e, {"biscuit_auth": [], "biscuit_quote": []})[b["crate"]].append((b, flds))
+    n = 0
+    for e in ("parse_block_source", "parse_source"):
+        rt, mc = per.get(e, {}).get("biscuit_auth", []), per.get(e, {}).get("biscuit_quote", [])
+        if not rt or not mc:
+            ctx.fail("SOURCE", f"{e}: run time and macro callers", f"SOURCE|{e}|anchor", f"expected a biscuit_auth and a biscuit_quote caller of {e} (found {len(rt)} / {len(mc)})", "biscuit-quote/src/lib.rs")
+            continue
+        loaded = set().union(*[f for _, f in rt])
+        for b, flds in mc:
+            for f in sorted(loaded):
+                n += 1
+                ctx.check(f in flds, "SOURCE", f"{b['path'].split('::')[-1]} reads SourceResult.{f} like the run time path", f"SOURCE|{b['path']}|{f}",
+                          f"{e}(..).{f} is loaded by {', '.join(sorted(x['path'].split('::')[-2] + '::' + x['path'].split('::')[-1] for x, ff in rt if f in ff))} but never read by the macro path: `{f}` written in a macro source is dropped", f"{b['file']}:{b['line']}")
+    ctx.floor("source-result fields compared (macro vs run time)", n, 8)
+
+
 def check(fb, ctx):
     ctx.explanation = (
         "REEMIT: for every enum of biscuit_parser::builder with a ToTokens impl (Term, MapKey through MapEntry, Scope, Op, Unary, "
@@ -75,7 +107,8 @@ def check(fb, ctx):
         "conversions used by the runtime path map each variant to the same variant and use every field. So both paths are the "
         "identity on AST nodes. COLLECT: the macro path rebuilds the parameter map with the biscuit_auth collectors, the runtime "
         "path copies the parser's map, therefore both collectors must visit the same positions (shared with C20). EMIT: "
-        "biscuit-quote binds every parameter with set_macro_param and adds each item with the builder method of its kind."
+        "biscuit-quote binds every parameter with set_macro_param and adds each item with the builder method of its kind. SOURCE: "
+        "every SourceResult field a run time code_with_params loads is also read by the biscuit-quote caller of the same parser entry point."
     )
     # ---- REEMIT: enums
     n_arms = 0
@@ -180,6 +213,7 @@ def check(fb, ctx):
     if ap is not None:
         ids = quote_idents(fb.hir_of(ap)["body"])
         ctx.check("set_macro_param" in ids and "__biscuit_auth_item" in ids, "EMIT", "macro parameters are bound with set_macro_param on the item", "EMIT|add_param", f"emitted identifiers: {[i for i in ids if i != '::']}", f"{ap['file']}:{ap['line']}")
+    source_field_rules(fb, ctx)
     parallel_binding_rules(fb, ctx)
     ctx.not_decided = ["equality of resulting token bytes / authorization results (runtime)"]
     ctx.trusted = ["quote! expansion (push_ident / ToTokens::to_tokens calls) as seen in the type-checked HIR", "rustc pattern resolution"]
